@@ -166,8 +166,8 @@ PROPS["C02"] = dict(
     case_timeout=200,
     subs=[
         dict(name="corpus", test="TestCorpus", quick=1, thorough=1, shards=16),
-        dict(name="pipeline", test="TestPipeline", quick=3000, thorough=150000, shards=16, shrinktime="60s"),
-        dict(name="history", test="TestHistory", quick=600, thorough=30000, shards=8, shrinktime="60s"),
+        dict(name="pipeline", test="TestPipeline", quick=3000, thorough=20000, shards=16, shrinktime="60s"),
+        dict(name="history", test="TestHistory", quick=600, thorough=4000, shards=8, shrinktime="60s"),
     ],
     technique="rapid generation (corpus mutation, mutated generated programs, wild semantic fragments: cycles, structural cycles, conflicts, comprehensions, builtins) with a crash/hang/repeatability invariant; journalled cases attribute Go fatal errors",
     level_text="exploration: every embedded corpus source unmodified, plus generated inputs, through parse -> build -> Validate -> Validate(Concrete) -> Syntax(Final/default/All+Docs)+format -> MarshalJSON -> yaml.Encode, twice in one process (fresh contexts) and for a subsample in another process; a panic, a Go fatal error (stack overflow, deadlock) or differing transcripts is a violation; exceeding the time bound is recorded as inconclusive.",
@@ -242,8 +242,8 @@ PROPS["C19"] = dict(
     schedule_dependent=True,
     timeout_quick=1500,
     subs=[
-        dict(name="concurrent", test="TestConcurrent", quick=250, thorough=15000, shards=16),
-        dict(name="immutable", test="TestImmutable", quick=1500, thorough=60000, shards=8),
+        dict(name="concurrent", test="TestConcurrent", quick=250, thorough=1500, shards=16),
+        dict(name="immutable", test="TestImmutable", quick=1500, thorough=8000, shards=8),
     ],
     technique="rapid-generated programs and call multisets executed by 2-16 goroutines on one shared value under the Go race detector (halt_on_error), each result compared with a sequential baseline on a separately compiled copy; canonical form of the shared value before/after",
     level_text="exploration: witness-first programs (tier T2 with all features) shared in the 'deeply pre-walked' state or in the 'walked' state (every node validated and iterated, no value-deriving method called yet), 28 operations (lookups, iteration, Walk, Unify, FillPath, Validate x3, Default, Eval, Syntax x3, Decode x2, MarshalJSON, yaml.Encode, Kind, Allows, Subsume, Equals, Expr, ReferencePath, Path/Pos/Doc, scalar accessors), start barrier and Gosched skew; a sixth of the cases use an independent context per goroutine instead; a third are 'burst' cases: 1-12 rounds in which all goroutines, released together by a spin barrier, run operations whose first use with a new name touches process-wide state (FillPath/LookupPath/Compile with a never-seen label, Decode into a never-seen Go struct type whose field names match case-insensitively). Sub-check immutable (sequential): a fully evaluated value is fingerprinted (conjuncts, arcs, base value of every finalized vertex) before any cue.Value method is called, every operation then runs once on one goroutine, and the fingerprint must be unchanged.",
@@ -257,7 +257,7 @@ PROPS["C08"] = dict(
     pkg="c08",
     subs=[
         dict(name="corpus", test="TestCorpus", quick=1, thorough=1, shards=16),
-        dict(name="fmt", test="TestFmt", quick=4000, thorough=200000, shards=16),
+        dict(name="fmt", test="TestFmt", quick=4000, thorough=20000, shards=16),
     ],
     technique="corpus enumeration + rapid generation (token mutations, whitespace/comment mutations, generated programs printed with a random layout); oracles: parse(fmt(x)) has the same position-free tree incl. comment attachment, fmt(fmt(x)) == fmt(x), and for -s evaluation equivalence",
     level_text="exploration: every embedded corpus source with and without -s, plus mutated and generated inputs; the formatter in use is the default one (cue/format -> internal/pretty, FormatV2).",
@@ -273,7 +273,7 @@ PROPS["C12"] = dict(
     tools={"cue": "repo:cmd/cue"},
     timeout_quick=1500,
     subs=[
-        dict(name="cli", test="TestCLI", quick=70, thorough=6000, shards=16, shrinktime="90s"),
+        dict(name="cli", test="TestCLI", quick=70, thorough=400, shards=16, shrinktime="90s"),
     ],
     technique="rapid-generated data packages and CLI flag sets run through the cue binary built from the working tree; round trip export -> independent reader (encoding/json, go.yaml.in/yaml/v3, pelletier/go-toml/v2 used directly) and export -> cue import -> export --out json; exit-status oracle for non-concrete and erroneous packages",
     level_text="exploration: ground-truth data trees (adversarial strings/keys, both number kinds; TOML-safe subset for TOML) written as CUE by an independent renderer into 1-2 files with or without a package clause, exported with --out or -o file.ext, optionally --escape and -e path; the exported text is read by an independent reader and must equal the ground truth; importing it back and exporting JSON must reproduce the original JSON; non-concrete and conflicting packages must exit non-zero.",
@@ -302,7 +302,7 @@ PROPS["C13"] = dict(
 PROPS["C05"] = dict(
     pkg="c05",
     subs=[
-        dict(name="closedness", test="TestClosedness", quick=20000, thorough=600000, shards=16),
+        dict(name="closedness", test="TestClosedness", quick=20000, thorough=100000, shards=16),
     ],
     technique="rapid-generated schema/data pairs against an independent membership checker written from the spec (closing groups per definition reference, close() one level, embeddings widen, patterns, ellipsis, required fields)",
     level_text="exploration: schemas built from struct literals with regular/optional/required fields over labels {a,b,c,ab}, pattern constraints ([string], [=~\"^a\"], [\"a\"|\"b\"]), '...', embeddings, close(), references to up to 2 top-level definitions and conjunctions of such terms, nested to depth 3; data structs over the same labels; verdict 's & d validates as concrete' compared with the model in both directions (no silent gain in closed structs, no rejection by open ones, optional constraints on absent fields never fail).",
@@ -315,7 +315,7 @@ PROPS["C05"] = dict(
 PROPS["C04"] = dict(
     pkg="c04",
     subs=[
-        dict(name="disjunction", test="TestDisjunction", quick=2500, thorough=150000, shards=16),
+        dict(name="disjunction", test="TestDisjunction", quick=2500, thorough=15000, shards=16),
         dict(name="enum", test="TestEnum", quick=1, thorough=1, shards=16),
     ],
     technique="exhaustive enumeration of two-level marked disjunction products plus rapid-generated deeper expressions, against executable models of the spec's value/default-pair rules (pairwise U/D/M rewriting and a tagged disjunctive normal form), observed through unification with probe atoms, Default() and Validate(Concrete)",
